@@ -2379,6 +2379,15 @@ vbi_decode_teletext(vbi_decoder *vbi, uint8_t *buffer)
 			case PAGE_FUNCTION_LOP:
 				memcpy(cvtp->data.unknown.raw[0], p, 40);
 
+				/* The cached copy was stored without its
+				   enhancement array (cache_page_size()): mark
+				   all entries unused as for a page built from
+				   scratch, the memset above left zero triplets. */
+				if (0 == vtp->x26_designations
+				    && 0 == (vtp->x28_designations & 0x13))
+					memset (cvtp->data.enh_lop.enh, 0xFF,
+						sizeof (cvtp->data.enh_lop.enh));
+
 			default:
 				break;
 			}
